@@ -12,7 +12,8 @@ R10.squad   intermediate / squad / spline have the value graph of their document
             Imath's own inverse, product, log, exp, slerp (opaque callees): argument order and the 2t(1-t) blend included
 R10.explog  exp(log q) == q for unit q, |r| < 1 (cos(acos a) = a, sin(acos a) = sqrt(1-a^2), ...)
 R10.sinc    sinx_over_x(x) = sin(x)/x for every |x| >= 1 of either sign (interval evaluation of the guard), 1 on the small branch
-R10.slerp   slerpShortestArc negates q2 exactly when q1.q2 < 0; slerp(t=0) = normalized(q1), slerp(t=1) = normalized(q2)
+R10.slerp   slerpShortestArc negates q2 exactly when q1.q2 < 0; slerp(t=0) = normalized(q1), slerp(t=1) = normalized(q2);
+            slerp(q1,q2,t) is unit with slerp . q1 = cos(t a), slerp . q2 = cos((1-t) a), a = angle4D(q1,q2) (addition formulas)
 """
 from fractions import Fraction
 from engine import term as T, agg, build, vg, poly as P, polycheck as PC
@@ -540,6 +541,44 @@ def main(rep, ws, tier):
             return (None, 'slerp(q1,q2,0) = normalized(q1), slerp(q1,q2,1) = normalized(q2) (sinx_over_x opaque, cancels)', fn_where(S.fn))
         ob('slerp endpoints', 'R10.slerp', slerp_ends)
 
+        def slerp_linear():
+            """slerp(q1,q2,t) . q1 = cos(t a) and slerp(q1,q2,t) . q2 = cos((1-t) a) for unit q1, q2 and a = angle4D(q1,q2): the point at
+            4-D angle t*a from q1 on the great circle through q1 and q2 (generic branch of sinx_over_x; addition formulas)"""
+            S = S_('w_slerp'); o = outs(S, 'a0', 4)
+            tt = agg.scalar_in('a3', t)
+            def huge(z): return z.op == 'fmul' and any(w.op == 'const' and abs(T.const_value(w)) > 10 ** 30 for w in z.args)
+            for _ in range(12):
+                pre = {}
+                for c in set(c_ for x in o for c_ in P.all_conds(x)):
+                    if tiny(c): pre[c] = False
+                    elif c.op == 'fcmp' and c.attr == 'oeq' and any(z.op == 'const' and T.const_value(z) == 0 for z in c.args): pre[c] = False
+                    elif c.op == 'fcmp' and c.attr in ('olt', 'ole') and c.args[1].op == 'const' and 0 < T.const_value(c.args[1]) < Fraction(1, 1000) and P.abs_idiom(T.ite(c, T.TRUE, T.FALSE)) is None: pre[c] = False     # x*x < epsilon: the small-argument branch
+                if not pre: break
+                o = [T.resolve(x, pre) for x in o]
+            ctx = P.Ctx(); ctx.cancel = True; unit(ctx, 'a1'); unit(ctx, 'a2')
+            P.install_trig_expansion(ctx)
+            q1, q2 = qv(ctx, 'a1'), qv(ctx, 'a2')
+            r = [ctx.rat(x) for x in o]
+            lt_ = lt
+            A = None
+            # the angle: 2 * atan2(|q1 - q2|, |q1 + q2|) as it occurs in the graph
+            seen = set(); st = list(o)
+            while st:
+                x = st.pop()
+                if x.id in seen: continue
+                seen.add(x.id); st.extend(x.args)
+                if x.op == 'call' and x.attr == 'atan2': A = T.binop('fmul', T.fp_from_value(lt_, 2.0), x, lt_)
+            if A is None: return ('no atan2 (angle4D) in slerp', None, fn_where(S.fn))
+            want1 = ctx.rat(T.call('cos', [T.binop('fmul', tt, A, lt_)], lt_))
+            want2 = ctx.rat(T.call('cos', [T.binop('fmul', T.binop('fsub', T.fp_from_value(lt_, 1.0), tt, lt_), A, lt_)], lt_))
+            d1 = sum_r(ctx, [ctx.rmul(r[i], q1[i]) for i in range(4)]); d2 = sum_r(ctx, [ctx.rmul(r[i], q2[i]) for i in range(4)])
+            if not ctx.requal(d1, want1): return ('slerp(q1,q2,t) . q1 = %s, expected cos(t * angle4D(q1,q2))' % P.show_rat(d1, ctx)[:140], None, fn_where(S.fn))
+            if not ctx.requal(d2, want2): return ('slerp(q1,q2,t) . q2 = %s, expected cos((1-t) * angle4D(q1,q2))' % P.show_rat(d2, ctx)[:140], None, fn_where(S.fn))
+            nn = sum_r(ctx, [ctx.rmul(x, x) for x in r])
+            if not ctx.requal(nn, (ONE, ONE)): return ('slerp result is not unit: %s' % P.show_rat(nn, ctx)[:120], None, fn_where(S.fn))
+            return (None, 'unit; at 4-D angle t*a from q1 and (1-t)*a from q2 (a = angle4D(q1,q2)), for every real t on the generic branch', fn_where(S.fn))
+        ob('slerp angle-linearity', 'R10.slerp', slerp_linear)
+
         def shortest():
             Ro = an[to]
             S = S_('w_ssa', Ro)
@@ -584,7 +623,7 @@ def main(rep, ws, tier):
         ob('slerpShortestArc', 'R10.slerp', shortest)
     rep.floor('quaternion obligations', len(rep.obs), 9 * len(types))
     rep.assumptions += ['exact real arithmetic at a generic point', '|q| = 1 where the statement says "unit"', 'sinx_over_x, sqrt, sin, cos as atoms with sqrt(x)^2 = x, sin^2+cos^2 = 1']
-    rep.undecided_clauses += ['angle-linearity of slerp (inverse trigonometric functions); exp(log q) = q for r near -1 or +1 (numeric)', 'squad / spline interpolation and tangent continuity', 'nearly opposite directions (numeric)']
+    rep.undecided_clauses += ['slerp on the small-argument branch of sinx_over_x and near q1 = -q2; exp(log q) = q for r near -1 or +1 (numeric)', 'squad / spline interpolation and tangent continuity', 'nearly opposite directions (numeric)']
 
 def find_node(root, target):
     seen = set(); stack = [root]
